@@ -293,12 +293,7 @@ def finding_key(case, coq):
             return "pid0-unlisted-taken-to-exist"
         if case["plat"] == "netbsd" and case["meth"] == "cmdline" and case["site"] == "proc_cmdline" and case["err"] == "EINVAL":
             return "pid0-unlisted-taken-to-exist"
-    if case["kind"] == "nic" and case["plat"] == "windows" and case["fam"] == 1 and case.get("maskform") == "addr":
-        return "windows-ipv6-broadcast-address-form-netmask"
-    if case["kind"] == "sysfields" and case["plat"] in ("sunos", "aix") and case["fn"] in ("cpu_times", "virtual_memory"):
-        return "docs-unix-fields-sunos-aix"
-    if case["kind"] == "ladder" and case["plat"] == "windows" and case["meth"] == "memory_maps" and case["site"] == "QueryDosDevice":
-        return "windows-memory_maps-querydosdevice"
+    # fixed: windows-memory_maps-querydosdevice d6fc959, windows-ipv6-broadcast-address-form-netmask 0a57bb9
     if case["kind"] == "pair" and case["plat"] == "sunos" and case["pid"] == 0 and case["state"] == "gone" \
             and ("ESRCH" in (case["err1"], case["err2"]) or "ENOENT" in (case["err1"], case["err2"])):
         return "pid0-unlisted-taken-to-exist"
@@ -524,15 +519,16 @@ MANIFEST = {
             "and Solaris only when PID 0 is listed, the commented fall-backs); the same for two-fault sequences (first call fails, the documented "
             "second route fails: Windows proc_info fall-backs, Windows cmdline PEB/non-PEB, Solaris cred/psinfo), for ERROR_PARTIAL_COPY retried "
             "k times for every k, and for wait(0) (TimeoutExpired with pid and name while the PID is listed). Excluded and refuted: a PID 0 the OS "
-            "does not list is taken to exist (Solaris, NetBSD cmdline); Windows memory_maps() leaves a QueryDosDevice failure untranslated. Tables "
+            "does not list is taken to exist (Solaris, NetBSD cmdline). Legacy variants of the model (before fixes a2d103c, d6fc959, 0a57bb9) are "
+            "refuted. Tables "
             "regenerated from the code on every run (finite forallb facts lifted with forallb_forall): every probed outcome of every (platform, "
             "method, call, error, state, pid), of every native status code of every PROC_STATUSES (ZombieProcess iff the code means zombie), of "
             "every pair and retry count meets the contract and equals the model; slot maps are bijections in the order of the native records; "
             "every documented method -- including the list/dict/row answers cmdline, environ, open_files, net_connections, threads, memory_maps -- "
             "fills its documented tuple from the matching native slots; documented names, Process methods and the field lists of the system-wide "
-            "named tuples are exposed per platform (Solaris/AIX cpu_times/virtual_memory fields vs the documentation: excluded and refuted); "
+            "named tuples (regression table, beyond the property text) are exposed per platform; "
             "net_if_addrs() rows equal the model, whose Windows broadcast is addr | hostbits for every address and prefix (IPv4 netmask in address "
-            "form; IPv4/IPv6 netmask as prefix length; IPv6 netmask in address form is never converted: finding) and whose MAC padding yields six "
+            "form; IPv6 netmask in address form; IPv4/IPv6 netmask as prefix length) and whose MAC padding yields six "
             "octets. The same stub layer drives the real modules over the whole space on every run, comparing implementation, model and contract.",
     "note": "Trusted: Coq kernel + vm_compute; stub native layer and translator (props/_c20_stub.py, props/_c20_probe.py); the documented-"
             "contract tables of coq/C20/Spec.v; CPython errno->exception mapping and ipaddress. Native C layers are not exercised.",
